@@ -76,6 +76,10 @@ LINES = [
     (["tail", "a"], 1),
     (["tail", "--", "a"], 1),
     (["tail", "a", "--", "b"], 1),
+    # a command whose sub-commands are named like the switches without their dashes: a switch must never
+    # be taken for (or lead into) one of them, before or behind '--'
+    (["sw"], 1),
+    (["sw", "--", "a"], 1),
 ]
 # VERIF_SEED rotates exactly one of these in, on top of the fixed core above (only `tail` lines may carry a
 # '--': tokens behind it need the multi-valued argument to land in)
@@ -148,6 +152,17 @@ def build_app(raises):
         c.set_description("command with a multi-valued argument")
         c.add_argument("items", Argument.MULTI_VALUED, "values")
         c.set_handler(Handler(raises))
+    with config.command("sw") as c:
+        c.set_description("command with sub-commands named like the switches")
+        c.add_argument("items", Argument.MULTI_VALUED, "values")
+        c.set_handler(Handler(raises))
+        for name, alias in (("help", "h"), ("version", None), ("quiet", "q"), ("verify", "v"), ("vv", None), ("vvv", None),
+                            ("ansi", None), ("no-ansi", None), ("no-interaction", "n")):
+            with c.sub_command(name) as sc:
+                sc.set_description("sub-command " + name)
+                if alias:
+                    sc.add_alias(alias)
+                sc.set_handler(Handler(raises))
     return ConsoleApplication(config)
 
 
